@@ -93,6 +93,7 @@ func init() {
 		{Name: "c01-errpath-island", MinSteps: 1, MaxSteps: 2, Durs: []int64{0, 5}, Modes: []string{"err"}, PBad: 20, ErrOutput: true, OnlyErrOutputs: true, HangIsland: true},
 		{Name: "c01-neverfail-island", MinSteps: 1, MaxSteps: 2, Durs: []int64{0, 5}, ErrOutput: true, OnlyErrOutputs: true, HangIsland: true, StructRefs: true},
 		{Name: "c01-neverfail", MinSteps: 1, MaxSteps: 3, Durs: []int64{0, 5, 50}, ErrOutput: true, OnlyErrOutputs: true, StructRefs: true, MaxOutputs: 2},
+		{Name: "c01-recovery", MinSteps: 2, MaxSteps: 4, Durs: []int64{0, 5, 50}, Modes: []string{"err", "alt"}, PBad: 40, PDisabled: 20, WaitOnNeverPath: 60, PWaitFor: 30, MaxOutputs: 2},
 		{Name: "c01-stop", MinSteps: 1, MaxSteps: 3, Durs: []int64{0, 5, 50}, StopIf: true},
 	}
 	register(&PropDef{ID: "C01",
@@ -115,8 +116,21 @@ func init() {
 		{Name: "c04-failing", MinSteps: 2, MaxSteps: 6, Durs: someDurs, Modes: allBad, PBad: 45, PDeployFail: 25, PWaitFor: 60, PErrPathRef: 20, MaxOutputs: 3, ErrOutput: true},
 		{Name: "c04-disabled", MinSteps: 2, MaxSteps: 5, Durs: someDurs, Modes: []string{"err"}, PBad: 20, PDisabled: 70, PWaitFor: 50, MaxOutputs: 3, ErrOutput: true, PErrPathRef: 30},
 	}
+	c04 = append(c04, &ir.Profile{Name: "c04-stop-before-start", MinSteps: 0, MaxSteps: 2, Durs: []int64{0, 5}, StopBeforeStart: true})
 	register(&PropDef{ID: "C04",
-		Gen:   func(t *rapid.T) *Case { return genS1(t, "C04", c04, true) },
+		Gen: func(t *rapid.T) *Case {
+			c := genS1(t, "C04", c04, true)
+			if c.Profile == "c04-stop-before-start" {
+				// the "stopped before it started" rule is decided on simulated time, which is only sound
+				// when time never passes while a goroutine could still run (see DESIGN §6 C04)
+				c.Policy.PTime = 0
+				if c.Policy.Kind == "starve" {
+					c.Policy.Kind = "pct"
+					c.Policy.Depth = 2
+				}
+			}
+			return c
+		},
 		Check: s1Check("C04", OracleMayRun),
 	})
 
